@@ -61,6 +61,7 @@ type Ctx struct {
 	states      map[uint64]struct{}
 	statesCap   bool
 	nontriv     map[uint64]struct{}
+	policy      int
 	viol        map[string]*Violation
 	violCount   map[string]int64
 	Families    map[string]int64
@@ -158,6 +159,12 @@ func (c *Ctx) Sample(s any) {
 // Violate records a witness. Only the first witness per (rule, shape) is kept
 // (enumeration is simplest-first, so it is the smallest in enumeration order).
 func (c *Ctx) Violate(v Violation) {
+	if c.policy != 0 {
+		v.Detail += fmt.Sprintf("\n    internal schedule: alternative %d (always switch goroutine at a synchronisation point)", c.policy)
+		if m, ok := v.Replay.(map[string]any); ok {
+			m["policy"] = c.policy
+		}
+	}
 	k := v.Rule + "\x00" + v.Shape
 	c.mu.Lock()
 	c.violCount[k]++
@@ -212,14 +219,16 @@ func readHashes(path string, into map[uint64]struct{}) {
 
 // Check is one property's decision procedure.
 type Check struct {
-	ID        string
-	Level     string // evidence "level"
-	Rule      string // how cases are enumerated / what is non-trivial
-	Assume    []string
-	Run       func(c *Ctx)
-	Replay    func(raw json.RawMessage) (string, bool) // re-execute one witness; returns description, still-violates
-	Race      bool                                     // needs the -race binary
-	QuickS    int                                      // enumeration budget, seconds (quick)
+	ID     string
+	Level  string // evidence "level"
+	Rule   string // how cases are enumerated / what is non-trivial
+	Assume []string
+	Run    func(c *Ctx)
+	Replay func(raw json.RawMessage) (string, bool) // re-execute one witness; returns description, still-violates
+	Race   bool                                     // needs the -race binary
+	// Policies: number of alternative internal schedules (vsched.Policy 1..n) under which Run is repeated
+	Policies  int
+	QuickS    int // enumeration budget, seconds (quick)
 	ThoroughS int
 }
 
@@ -323,6 +332,17 @@ func worker(ck *Check, tier string, seed int64, shard, n int, out string) {
 	start := time.Now()
 	c := newCtx(ck.ID, tier, seed, shard, n, start.Add(budget(ck, tier)))
 	ck.Run(c)
+	// event-level checks run their families again under the alternative internal schedules: between two
+	// environment events the goroutines of the implementation are then interleaved the other way round
+	for p := 1; p <= ck.Policies && SetPolicy != nil; p++ {
+		SetPolicy(p)
+		c.policy = p
+		ck.Run(c)
+	}
+	if SetPolicy != nil {
+		SetPolicy(0)
+	}
+	c.policy = 0
 	p := partial{Evals: c.Evals, Transitions: c.Transitions, Traces: c.Traces, RefDisagree: c.RefDisagree,
 		Exhaustive: c.Exhaustive, Capped: c.Capped, Bound: c.Bound, Outcomes: c.Outcomes, Families: c.Families,
 		Samples: c.Samples, Notes: c.Notes, StatesCapped: c.statesCap, ViolCount: c.violCount,
@@ -726,6 +746,9 @@ func RaceDelta() string {
 
 var raceOff int64
 
+// SetPolicy is installed by the package that owns the controlled scheduler (fw does not import it).
+var SetPolicy func(p int)
+
 // RaceShape names a race by the two dgrr/http2 functions whose accesses conflict.
 func RaceShape(report string) string {
 	var fns []string
@@ -818,6 +841,13 @@ func replayMain(args []string) {
 	if ck == nil || ck.Replay == nil {
 		fmt.Fprintf(os.Stderr, "no replay function for %s\n", r.Property)
 		os.Exit(2)
+	}
+	var pol struct {
+		Policy int `json:"policy"`
+	}
+	json.Unmarshal(r.Replay, &pol)
+	if pol.Policy != 0 && SetPolicy != nil {
+		SetPolicy(pol.Policy)
 	}
 	var desc string
 	var bad bool
